@@ -2,6 +2,7 @@ import DVP.Lemmas.LoopReset
 import DVP.Lemmas.LoopIdem
 import DVP.Lemmas.LoopEvReset
 import DVP.Lemmas.RunSplit
+import DVP.Properties.C03
 /-!
 # C13 — results do not depend on call history; reset restores the initial state
 
@@ -129,6 +130,17 @@ theorem split_at_grid_point_changes_no_sample {V : Type} (cfg : Cfg ℚ) (htolpo
     let B := DV.Run.integrate cfg add inc (DV.Run.integrate cfg add inc s (s.sys.tcur + j * s.sys.dt) F1) T m
     B.sys.ts = A.sys.ts ∧ B.ys = A.ys ∧ B.sys.dt = A.sys.dt :=
   DVP.RunSplit.split_samples cfg htolpos add inc s T j F1 m hj hF1 hok hcr hdir hside hfar htol
+
+/-- **After `reset()` the system is back at `(t0, y0)`** - with the states: whole-run model `DV.Run`, after any
+sequence of `integrate(t)` calls of a fixed-step method (any right-hand side, spans, directions, numbers of steps)
+the only sample left is the initial time with the initial condition. -/
+theorem reset_back_at_initial_condition {V : Type} (cfg : Cfg ℚ) (add : V → V → V) (inc : ℚ → V → ℚ → V) (t0 tf dt : ℚ) (y0 : V)
+    (targets : List ℚ) (fuel : Nat) :
+    let r := DV.Run.reset (DV.Run.calls cfg add inc fuel (DV.Run.construct t0 tf dt y0) targets)
+    r.ys = [y0] ∧ r.sys.ts = [t0] ∧ r.sys.status = 0 := by
+  obtain ⟨_, h2, h3, _⟩ := DVP.C03.fixed_step_samples_paired cfg add inc t0 tf dt y0 targets fuel
+  simp only [DV.Run.reset, DV.Loop.reset, h2, h3]
+  simp
 
 /-- non-vacuity: Euler on `y' = y`, `dt = 1/4`, `integrate(1/2); integrate(9/8)` against `integrate(9/8)` -/
 example : (DV.Run.calls (α := ℚ) (V := ℚ) { eps := 1/2^50, tolEps := 1/2^47, half := 1/2 } (· + ·)
